@@ -329,6 +329,17 @@ def revokedMatch : List RevokedCert → List RevokedEntry → Bool
   | r :: rs, e :: es => reqRevoked r e && revokedMatch rs es
   | _, _ => false
 
+/-- RFC 5280 §6.3.3 (j): a certificate is reported revoked by a CRL exactly when its serial
+    number occurs in `revokedCertificates` (an absent field lists nothing) -/
+def isRevoked (c : TbsCrl) (serial : Nat) : Bool :=
+  (c.revoked.getD []).any (fun e => e.serial == serial)
+
+/-- the revocation verdict agrees with the request in both directions: every listed serial is
+    reported revoked, and every serial reported revoked was listed -/
+def revokedIffListed (req : List RevokedCert) (c : TbsCrl) : Bool :=
+  req.all (fun r => isRevoked c (ofBe r.serial)) &&
+  (c.revoked.getD []).all (fun e => req.any (fun r => ofBe r.serial == e.serial))
+
 def c08Clauses (i : CrlInputs) (tbs : Bytes) : List String :=
   match decodeTbsCrl tbs with
   | none => ["C08:decodes"]
@@ -350,6 +361,7 @@ def c08Clauses (i : CrlInputs) (tbs : Bytes) : List String :=
     clause "C08:no-other-crl-extension"
       (c.exts.all (fun e => e.oid == oidCrlNumber || e.oid == oidAki || e.oid == oidIdp)) ++
     clause "C08:entries-exactly-listed" (revokedMatch i.p.revoked (c.revoked.getD [])) ++
+    clause "C08:revoked-iff-listed" (revokedIffListed i.p.revoked c) ++
     clause "C08:encoded-next-update-later-than-this-update"
       (match c.nextUpdate with | some n => c.thisUpdate.2 < n.2 | none => false) ++
     clause "C08:issuer-key-usage-allows-crl-sign"
